@@ -204,6 +204,10 @@ func GenC12(seed uint64) *Plan {
 			if secondRef {
 				f.Filter = &model.Filter{Op: g.pick([]string{"contains", "contains", "!contains"}), Ref: &model.Ref{Integration: "ref1", Column: "c_pool"}}
 				nflt++
+			} else if p.Checks["deps"] && g.chance(50) {
+				// a second filter that looks up the very same integration and column
+				f.Filter = &model.Filter{Op: g.pick([]string{"contains", "contains", "!contains"}), Ref: &model.Ref{Integration: "ref0", Column: "c_pool"}}
+				nflt++
 			} else if g.chance(80) {
 				f.Filter = g.filterFor("bytes", 0, p.Content.Addrs)
 				nflt++
